@@ -22,11 +22,14 @@ def rule_parser_siblings(rep, rule="H-siblings"):
         f["textgrid keys"] = sorted(k.value for k in tops[0].keys) if tops else None
         f["entry constructors"] = sorted({norm(n.func) for n in ast.walk(fn.node) if isinstance(n, ast.Call) and norm(n.func) in ("Interval", "Point")})
         f["span parser"] = sorted({norm(n.func) for n in ast.walk(fn.node) if isinstance(n, ast.Call) and norm(n.func).endswith("strToIntOrFloat")})
-        strips = 0
-        for n in ast.walk(fn.node):
-            if isinstance(n, ast.Assign) and norm(n.value) == "label.strip()":
-                strips += 1
-        f["label.strip() per entry kind"] = strips
+        # are entry labels stripped of surrounding blanks?  (operation sequence of each label payload)
+        stripped = []
+        for s_ in tf.stmts_in_order(fn):
+            for n in ast.walk(s_) if isinstance(s_, (ast.Expr, ast.Assign)) else []:
+                if isinstance(n, ast.Call) and norm(n.func) in ("Interval", "Point") and n.args:
+                    info = tf.payload_ops(idx, fn, s_, n.args[-1])
+                    stripped.append((norm(n.func), "strip" in info["ops"] if info else None))
+        f["entry labels stripped"] = sorted(stripped)
         f["textgrid span conversion"] = sorted({norm(n.value.func) for n in ast.walk(fn.node) if isinstance(n, ast.Assign) and norm(n.targets[0]) in ("tgMin", "tgMax") and isinstance(n.value, ast.Call)})
         return f
     fa, fb = facts(a), facts(b)
